@@ -276,3 +276,70 @@ def audit_lattice(matcher):
             if p.stop:
                 raise Violation("live", f"live entry {key} has a stopped predecessor {pk}")
     return n_entries
+
+
+# ---- KF-NE-ORDER root cause: the no-revisit filter of non-emitting runs follows one of several equally probable chains ----
+
+def _ne_chain_nodes(entry):
+    """Nodes that BaseMatcher._node_in_prev_ne would find for a move out of `entry`: the nodes of its predecessors within
+    the same observation, down to and including the emitting state the non-emitting run started from."""
+    out, chain = set(), []
+    cur = entry
+    while True:
+        prevs = list(cur.prev)
+        if not prevs:
+            break
+        p = prevs[0]
+        if p.obs != cur.obs:
+            break
+        out |= set(p.nodes)
+        chain.append(tuple(p.key))
+        if p.obs_ne == 0:
+            break
+        cur = p
+    return out, chain
+
+
+def ne_revisit_tie(m_a, m_b, ren=None, tol=1e-9):
+    """Root-cause predicate of KF-NE-ORDER for two runs that ought to agree (same case, other listing order / labels /
+    backend).  True iff the better best path (say of run A) leaves a non-emitting state J for a state K that run B lacks
+    (or holds less probable), although B holds J with the same probability - but reached through another, equally probable
+    chain whose nodes include K's end node, so that B's no-revisit filter forbade exactly the move A made.
+    `ren` maps A's labels to B's.  Tries both directions.  Returns a description or None."""
+    ren_ab = ren or {}
+    inv = {v: k for k, v in ren_ab.items()}
+    for good, bad, r in ((m_a, m_b, ren_ab), (m_b, m_a, inv)):
+        path = good.lattice_best or []
+        if not path or not bad.lattice_best:
+            continue
+        if not good.lattice_best[-1].logprob > bad.lattice_best[-1].logprob:
+            continue
+        mp = (lambda x, r=r: r.get(x, x))
+        for i, e in enumerate(path):
+            key = tuple(e.key)
+            key_b = tuple(mp(x) for x in key[:-2]) + key[-2:]
+            col = bad.lattice.get(e.obs) if isinstance(bad.lattice, dict) else bad.lattice[e.obs]
+            layer = col.o[e.obs_ne] if col is not None and e.obs_ne < len(col.o) else {}
+            eb = layer.get(key_b)
+            if eb is not None and not eb.stop and base.close(float(eb.logprob), float(e.logprob), tol):
+                continue
+            # first state of the better path that the other run lacks or holds with another probability
+            if i == 0:
+                break
+            j = path[i - 1]
+            if j.obs_ne == 0:
+                break  # the filter only applies to moves out of a non-emitting state
+            jkey_b = tuple(mp(x) for x in tuple(j.key)[:-2]) + tuple(j.key)[-2:]
+            jcol = bad.lattice[j.obs]
+            jb = jcol.o[j.obs_ne].get(jkey_b) if j.obs_ne < len(jcol.o) else None
+            if jb is None or jb.stop:
+                break
+            target = mp(e.nodes[-1])
+            seen_bad, chain_bad = _ne_chain_nodes(jb)
+            seen_good, chain_good = _ne_chain_nodes(j)
+            seen_good = {mp(x) for x in seen_good}
+            if target in seen_bad and target not in seen_good:
+                return (f"{tuple(j.key)} -> {key}: the other run holds {jkey_b} with the same probability via the chain "
+                        f"{chain_bad} (instead of {chain_good}), which contains node {target!r}: move forbidden by the no-revisit filter")
+            break
+    return None
